@@ -30,13 +30,14 @@ std::string programJson(const Program& p, const char* const* names) {
   return s;
 }
 
+// the registries are never destroyed: their runners must stay reachable for LeakSanitizer's at-exit check
 std::vector<CvRunnerBase*>& cvRunners() {
-  static std::vector<CvRunnerBase*> v;
-  return v;
+  static std::vector<CvRunnerBase*>* v = new std::vector<CvRunnerBase*>();
+  return *v;
 }
 std::vector<SvRunnerBase*>& svRunners() {
-  static std::vector<SvRunnerBase*> v;
-  return v;
+  static std::vector<SvRunnerBase*>* v = new std::vector<SvRunnerBase*>();
+  return *v;
 }
 OnceRunnerBase*& onceRunner(int idx) {
   static OnceRunnerBase* tab[HSEQ_ONCE_NUM_TYPES] = {};
@@ -64,7 +65,7 @@ static Op mk(int code, long a = 0, long b = 0, long c = 0, int t = 0) {
 }
 
 // ------------------------------------------------------------------ C32
-static std::vector<Op> cvAlphabet(bool gtal0) {
+static std::vector<Op> cvAlphabet() {
   std::vector<Op> v = {
       mk(kCvCtorDefault), mk(kCvCtorReserve, 10), mk(kCvCtorSize, 6), mk(kCvCtorSizeValue, 3), mk(kCvCtorRangeVec, 6), mk(kCvCtorRangeList, 3),
       mk(kCvCtorSizeRange, 6), mk(kCvCtorIlist, 3), mk(kCvCopyCtor), mk(kCvMoveCtor), mk(kCvMoveCtor, 0, 0, 0, 1), mk(kCvCopyAssign), mk(kCvCopyAssign, 0, 0, 0, 1),
@@ -78,11 +79,10 @@ static std::vector<Op> cvAlphabet(bool gtal0) {
       mk(kCvEraseRange, 0, 6, 10), mk(kCvEraseRange, 0, 6, 6),
       mk(kCvResize, 1), mk(kCvResize, 9), mk(kCvResizeValue, 9), mk(kCvResizeValue, 0), mk(kCvReserve, 15), mk(kCvPopBack), mk(kCvClear), mk(kCvClear, 0, 0, 0, 1),
       mk(kCvShrinkToFit), mk(kCvSwapMember), mk(kCvSwapFree), mk(kCvCompare), mk(kCvIterForward), mk(kCvIterBackward), mk(kCvIterArith, 1), mk(kCvAtFrontBack)};
-  if (gtal0) v.push_back(mk(kCvGrowToAtLeast, 0, 0, 77));
   return v;
 }
 
-static Program cvRandomProgram(vrt::Rng& r, uint64_t mask, bool gtal0) {
+static Program cvRandomProgram(vrt::Rng& r, uint64_t mask) {
   Program p;
   long len = r.range(3, 60);
   for (long i = 0; i < len; ++i) {
@@ -95,7 +95,6 @@ static Program cvRandomProgram(vrt::Rng& r, uint64_t mask, bool gtal0) {
     o.c = static_cast<long>(r.below(64));
     if (o.c == 77) o.c = 0;
     o.t = r.chance(0.25) ? 1 : 0;
-    if (gtal0 && o.code == kCvGrowToAtLeast && r.chance(0.03)) o.c = 77;
     p.push_back(o);
   }
   return p;
@@ -103,25 +102,35 @@ static Program cvRandomProgram(vrt::Rng& r, uint64_t mask, bool gtal0) {
 
 static void runC32() {
   const bool th = vrt::thorough();
+  vrt::leakCheckEvery(16); // elements own no heap memory; the per-case LeakSanitizer pass is the dominant cost under ASan
   std::vector<CvRunnerBase*> runners = cvRunners();
   std::sort(runners.begin(), runners.end(), [](CvRunnerBase* a, CvRunnerBase* b) { return a->traitName + a->elemName < b->traitName + b->elemName; });
   const long R = static_cast<long>(runners.size());
-  const bool gtal0 = vrt::g_args.getInt("gtal0", 1) != 0;
-  const std::vector<Op> alpha = cvAlphabet(gtal0);
+  const std::vector<Op> alpha = cvAlphabet();
   const long K = static_cast<long>(alpha.size());
   const long blockA = R * K; // (runner, first op) x every second (x every third) op
   const long randomPerRunner = vrt::g_args.getInt("n", th ? 200 : 16);
   const long perRandom = 40;
   const long blockB = R * randomPerRunner;
+  // dedicated cases for the zero-length request grow_to_at_least(0): it has no std::vector counterpart that could
+  // misbehave, and a sanitizer abort inside it must not cost the rest of a block
+  const long blockC = vrt::g_args.getInt("gtal0", 1) != 0 ? R : 0;
   const uint64_t growOps = (uint64_t{1} << kCvPushBackCopy) | (uint64_t{1} << kCvGrowByValue) | (uint64_t{1} << kCvGrowByGenerator) | (uint64_t{1} << kCvEmplaceBack);
   const uint64_t cutShort = (uint64_t{1} << kCvInsertCopy) | (uint64_t{1} << kCvInsertMove) | (uint64_t{1} << kCvErasePos) | (uint64_t{1} << kCvEraseRange);
-  for (long idx = 0; idx < blockA + blockB; ++idx) {
+  for (long idx = 0; idx < blockA + blockB + blockC; ++idx) {
     if (!vrt::selected(idx)) continue;
     CvRunnerBase* run = runners[static_cast<size_t>(idx % R)];
     std::vector<Program> progs;
     J spec;
     std::string mode;
-    if (idx < blockA) {
+    std::string key = "cv/" + run->traitName + "/" + run->elemName;
+    if (idx >= blockA + blockB) {
+      mode = "edge";
+      key += "/grow_to_at_least-n0";
+      progs.push_back({mk(kCvGrowToAtLeast, 0, 0, 77)});
+      progs.push_back({mk(kCvGrowByGenerator, 6), mk(kCvGrowToAtLeast, 0, 0, 77), mk(kCvGrowToAtLeastValue, 0, 0, 77), mk(kCvPushBackCopy)});
+      spec.kv("mode", mode).kv("programs", 2);
+    } else if (idx < blockA) {
       const Op f = alpha[static_cast<size_t>(idx / R)];
       // fixed prefix: a gets first-bucket+1 elements (spans two buckets), b gets two
       const Program prefix = {mk(kCvGrowByGenerator, 6), mk(kCvPushBackCopy, 0, 0, 0, 1), mk(kCvEmplaceBack, 0, 0, 0, 1)};
@@ -149,10 +158,9 @@ static void runC32() {
       if (r.chance(0.5)) mask &= ~cutShort;
       if (r.chance(0.2)) mask = ~uint64_t{0};
       mask |= growOps;
-      for (long k = 0; k < perRandom; ++k) progs.push_back(cvRandomProgram(r, mask, gtal0));
+      for (long k = 0; k < perRandom; ++k) progs.push_back(cvRandomProgram(r, mask));
       spec.kv("mode", mode).kv("opMask", mask & ((uint64_t{1} << kCvNumOps) - 1)).kv("programs", perRandom);
     }
-    std::string key = "cv/" + run->traitName + "/" + run->elemName;
     vrt::caseBegin(idx, key, spec);
     vrt::watchdogArm();
     long nt = 0, diverged = 0, ops = 0;
@@ -187,13 +195,14 @@ static void runC32() {
 static std::vector<Op> svAlphabet() {
   return {mk(kSvCtorDefault), mk(kSvCtorCount, 2), mk(kSvCtorCount, 6), mk(kSvCtorCountValue, 5), mk(kSvCtorCountValue, 9), mk(kSvCtorIlist, 3), mk(kSvCtorIlist, 1),
           mk(kSvCopyCtor), mk(kSvCopyCtor, 0, 0, 0, 1), mk(kSvMoveCtor), mk(kSvMoveCtor, 0, 0, 0, 1), mk(kSvCopyAssign), mk(kSvCopyAssign, 0, 0, 0, 1), mk(kSvMoveAssign), mk(kSvMoveAssign, 0, 0, 0, 1),
-          mk(kSvSelfAssign), mk(kSvPushBackCopy), mk(kSvPushBackCopy, 0, 0, 0, 1), mk(kSvPushBackMove), mk(kSvEmplaceBack), mk(kSvPushBackAlias, 0), mk(kSvPopBack),
+          mk(kSvSelfAssign), mk(kSvPushBackCopy), mk(kSvPushBackCopy, 0, 0, 0, 1), mk(kSvPushBackMove), mk(kSvEmplaceBack), mk(kSvPopBack),
           mk(kSvResize, 1), mk(kSvResize, 6), mk(kSvResize, 9), mk(kSvResizeValue, 5), mk(kSvResizeValue, 8), mk(kSvResizeValue, 0),
           mk(kSvErase, 0, 0), mk(kSvErase, 0, 1), mk(kSvErase, 0, 7), mk(kSvReserve, 2), mk(kSvReserve, 6), mk(kSvReserve, 11), mk(kSvClear), mk(kSvClear, 0, 0, 0, 1), mk(kSvObserve)};
 }
 
 static void runC38() {
   const bool th = vrt::thorough();
+  vrt::leakCheckEvery(16);
   std::vector<SvRunnerBase*> runners = svRunners();
   std::sort(runners.begin(), runners.end(), [](SvRunnerBase* a, SvRunnerBase* b) { return a->align != b->align ? a->align < b->align : a->inlineCap < b->inlineCap; });
   const long R = static_cast<long>(runners.size());
@@ -210,14 +219,28 @@ static void runC38() {
   const long randomPerRunner = vrt::g_args.getInt("n", th ? 300 : 24);
   const long perRandom = 40;
   const long blockB = R * randomPerRunner;
+  // push_back(v[i]) (a reference to an own element) gets one-program cases: a reallocation there can end the
+  // process under ASan, which must not cost the rest of a block
   const bool alias = vrt::g_args.getInt("alias", 1) != 0;
-  for (long idx = 0; idx < blockA + blockB; ++idx) {
+  const long blockC = alias ? R * P * K : 0;
+  for (long idx = 0; idx < blockA + blockB + blockC; ++idx) {
     if (!vrt::selected(idx)) continue;
     SvRunnerBase* run = runners[static_cast<size_t>(idx % R)];
     std::vector<Program> progs;
     J spec;
     std::string mode;
-    if (idx < blockA) {
+    std::string key = "sv/N" + std::to_string(run->inlineCap) + "/a" + std::to_string(run->align);
+    if (idx >= blockA + blockB) {
+      long rest = (idx - blockA - blockB) / R;
+      mode = "alias";
+      key += "/alias";
+      Program p = prefixes[static_cast<size_t>(rest % P)];
+      p.push_back(alpha[static_cast<size_t>(rest / P)]);
+      p.push_back(mk(kSvPushBackAlias, rest));
+      p.push_back(mk(kSvObserve));
+      progs.push_back(p);
+      spec.kv("mode", mode).kv("program", programJson(p, kSvOpNames));
+    } else if (idx < blockA) {
       long rest = idx / R;
       const Program& prefix = prefixes[static_cast<size_t>(rest % P)];
       const Op f = alpha[static_cast<size_t>(rest / P)];
@@ -242,7 +265,7 @@ static void runC38() {
       vrt::Rng r = vrt::caseRng(idx);
       uint64_t mask = r.next() | r.next();
       if (r.chance(0.3)) mask = ~uint64_t{0};
-      if (!alias || r.chance(0.7)) mask &= ~(uint64_t{1} << kSvPushBackAlias);
+      if (!alias || r.chance(0.85)) mask &= ~(uint64_t{1} << kSvPushBackAlias);
       mask |= (uint64_t{1} << kSvPushBackCopy) | (uint64_t{1} << kSvEmplaceBack) | (uint64_t{1} << kSvObserve);
       for (long k = 0; k < perRandom; ++k) {
         Program p;
@@ -261,18 +284,12 @@ static void runC38() {
       }
       spec.kv("mode", mode).kv("opMask", mask & ((uint64_t{1} << kSvNumOps) - 1)).kv("programs", perRandom);
     }
-    std::string key = "sv/N" + std::to_string(run->inlineCap) + "/a" + std::to_string(run->align);
     vrt::caseBegin(idx, key, spec);
     vrt::watchdogArm();
     long nt = 0, diverged = 0, ops = 0, misaligned = 0;
     uint64_t attempted = 0;
     bool heap = false, inl = false;
     for (const Program& p : progs) {
-      if (!alias) {
-        bool has = false;
-        for (const Op& o : p) has = has || o.code == kSvPushBackAlias;
-        if (has) continue;
-      }
       SeqResult res = run->run(p);
       ops += res.opsRun;
       attempted |= res.opMask;
@@ -308,6 +325,7 @@ void runC39() {
   const long blocksPerType = vrt::g_args.getInt("n", th ? 60 : 6);
   const long perBlock = 16;
   vrt::watchdogIdleFlatIsHang(true);
+  vrt::leakCheckEvery(2);
   for (long idx = 0; idx < T * blocksPerType; ++idx) {
     if (!vrt::selected(idx)) continue;
     OnceRunnerBase* run = onceRunner(static_cast<int>(idx % T));
